@@ -91,8 +91,29 @@ def special_array(kind, j):
     return None
 
 
+def extra_special(kind, k):
+    if kind == 'R3' and k == 14:
+        return np.diag([1.0, 1.0, -1.0])            # orthogonal, determinant -1
+    if kind == 'R2' and k == 14:
+        return np.array([[1.0, 0.0], [0.0, -1.0]])
+    if kind in ('T3', 'T2') and k == 14:
+        n = 4 if kind == 'T3' else 3
+        T = np.eye(n)
+        T[:n - 1, n - 1] = [2.5e6, -1e7, 3e8][:n - 1]
+        return T
+    if kind == 'v3' and k == 14:
+        return np.array([2.5e6, -1e7, 3e8])
+    if kind == 'q' and k == 14:
+        return np.array([1.0, 5e-324, 0.0, 0.0])   # a subnormal component
+    return None
+
+
 def gen_array(kind, k):
     k = int(k)
+    if k >= 14:
+        sp = extra_special(kind, k)
+        if sp is not None:
+            return sp
     if k >= 8 and not (kind in ('p2', 'p3', 'hp2', 'hp3') and k == 13):
         sp = special_array(kind, k - 8)
         if sp is not None:
@@ -184,9 +205,10 @@ def gen_scalar(kind, k):
     k = int(k)
     if kind == 'ang':
         return [0.3, -0.7, 1.2, 0.0, 2.5, -1.9, 0.05, 3.0, math.pi, -math.pi, math.pi / 2,
-                2 * math.pi][k % 12]
+                2 * math.pi, 180.0, -180.0, 90.0, 360.0][k % 16]
     if kind == 'sc':
-        return [0.5, 2.0, -1.5, 1.0, 0.0, 3.25, -0.25, 10.0, -1.0, 1e-12, 90.0, 180.0][k % 12]
+        return [0.5, 2.0, -1.5, 1.0, 0.0, 3.25, -0.25, 10.0, -1.0, 1e-12, 90.0, 180.0, 1e7, -1e7,
+                1e-300, 2.0 ** 60][k % 16]
     if kind == 's01':
         return [0.0, 1.0, 0.5, 0.25, 0.9, 0.1][k % 6]
     if kind == 'int':
@@ -202,9 +224,9 @@ def gen_scalar(kind, k):
 
 # forms a vector / matrix argument can take
 VEC_FORMS = ['array', 'list', 'tuple', 'row', 'col', 'intarray', 'intlist', 'view', 'strided',
-             'f32', 'f16', 'bigendian']
+             'f32', 'f16', 'bigendian', 'readonly', 'complex', 'masked', 'iterator']
 MAT_FORMS = ['array', 'fortran', 'view', 'strided', 'transposed', 'nested', 'intarray', 'f32',
-             'bigendian']
+             'bigendian', 'readonly', 'complex', 'masked']
 
 
 def to_form(a, form):
@@ -233,6 +255,16 @@ def to_form(a, form):
         return np.array(a, dtype=np.float16)
     if form == 'bigendian':
         return np.array(a, dtype='>f8')
+    if form == 'readonly':
+        r = np.array(a)
+        r.setflags(write=False)
+        return r
+    if form == 'complex':
+        return np.array(a, dtype=complex)
+    if form == 'masked':
+        return np.ma.array(np.array(a))
+    if form == 'iterator':
+        return iter([float(x) for x in a.ravel()])
     if form == 'fortran':
         return np.asfortranarray(np.array(a))
     if form == 'transposed':
@@ -315,7 +347,7 @@ def classify_array(a):
 def classify(v):
     """-> kind string for a heap value."""
     if isinstance(v, np.ndarray):
-        if v.size > 400:
+        if v.size > 400 or type(v) is not np.ndarray:       # masked arrays, matrices: not reused
             return 'misc'
         return classify_array(v)
     if isinstance(v, bool):
@@ -352,7 +384,10 @@ def snapshot(v, depth=0, seen=None):
     if isinstance(v, np.ndarray):
         if v.dtype == object:
             return ('ndobj', v.shape, tuple(snapshot(x, depth + 1) for x in v.ravel().tolist()))
-        return ('nd', v.shape, v.dtype.str, v.tobytes())
+        if isinstance(v, np.ma.MaskedArray):
+            return ('ndmasked', v.shape, v.dtype.str, np.asarray(v.data).tobytes(),
+                    np.ma.getmaskarray(v).tobytes())
+        return ('nd', v.shape, v.dtype.str, v.tobytes(), bool(v.flags.writeable))
     if v is None or isinstance(v, (bool, str, bytes)):
         return ('lit', type(v).__name__, v)
     if isinstance(v, (int, np.integer)):
